@@ -259,10 +259,74 @@ class Program:
         return self.raw_index.get(raw)
 
 
+def _known_sigs():
+    import os
+    out = {}
+    try:
+        with open(os.path.join(os.path.dirname(__file__), "known_fns.txt")) as fh:
+            for l in fh:
+                if "\t" in l:
+                    k, v = l.rstrip("\n").split("\t", 1)
+                    out[k] = v
+    except OSError:
+        pass
+    return out
+
+
+def alias_renamed(p):
+    """A private function that was only renamed (same module, same signature, the old name gone, the new name unknown to the
+    reference vocabulary kv/known_fns.txt, and the match unique) is given its old name back - in its own key and in every call
+    to it - so that rules which name it (anchors, opaque sets, expected callees) keep working.  Purely a naming matter: the
+    body that is analysed is the current one."""
+    sigs = _known_sigs()
+    if not sigs:
+        return {}
+
+    def sig_of(b):
+        return "(%s) -> %s" % (", ".join(b.rec.get("sig_inputs") or []), b.rec.get("sig_output") or "")
+
+    def mod_of(k):
+        return k.rsplit("::", 1)[0]
+    present = set(p.by_key)
+    new = {}
+    for k, bs in p.by_key.items():
+        if k not in sigs and len(bs) == 1 and bs[0].crate in ("konst", "konst_kernel", "konst_proc_macros") \
+                and bs[0].kind in ("Fn", "AssocFn") and bs[0].rec.get("vis") != "pub":
+            new.setdefault((mod_of(k), sig_of(bs[0])), []).append(k)
+    old = {}
+    for k, sg in sigs.items():
+        if k not in present:
+            old.setdefault((mod_of(k), sg), []).append(k)
+    alias = {}
+    for ms, ks in new.items():
+        if len(ks) == 1 and len(old.get(ms, [])) == 1:
+            alias[ks[0]] = old[ms][0]
+    if not alias:
+        return alias
+    by_raw = {}
+    for k_new, k_old in alias.items():
+        b = p.by_key.pop(k_new)[0]
+        new_name, old_name = k_new.rsplit("::", 1)[1], k_old.rsplit("::", 1)[1]
+        b.key = k_old
+        b.path = b.path.replace("::" + new_name, "::" + old_name)
+        p.by_key.setdefault(k_old, []).append(b)
+        by_raw[b.raw] = (new_name, old_name)
+    for b in p.bodies:
+        for blk in b.blocks:
+            t = blk["term"]
+            c = t.get("callee") if t["k"] == "call" else None
+            if c and c.get("raw") in by_raw:
+                nn, on = by_raw[c["raw"]]
+                c["path"] = re.sub(r"::%s(?=$|::<)" % re.escape(nn), "::" + on, c["path"])
+    p.renamed = alias
+    return alias
+
+
 def load_program(config, th=None):
     from . import facts
     crates = facts.load_crates(config, th)
     p = Program(config)
     for c in facts.CRATES:
         p.add_crate(crates[c])
+    alias_renamed(p)
     return p
